@@ -1029,7 +1029,7 @@ spec("C18", plan=plan_c18,
           "exactly start+N may also give the documented limit error), never more than N bytes matched, the window hook never sees an "
           "inspection beyond start+N, the input's end is the real end afterwards in every outcome; also under a control whose hooks are "
           "switched off (enable = false) for the guarded rule; units that the limit can split - UTF-8 code points (plus<utf8::range>, "
-          "utf8::one<U+20AC>) and CR LF under eol (lf_crlf, crlf, cr_crlf) - on all strings to length 5/6 over {a, E2, 82, AC, CR, LF}.  "
+          "utf8::one<U+20AC>) and CR LF under eol (lf_crlf, crlf, cr_crlf) - and the scanning loop of rep_one_min_max, on all strings to length 5/6 over {a, E2, 82, AC, CR, LF}.  "
           "Non-trivial: guarded rule starting at "
           "offset > 0 with more than N bytes remaining; inputs deeper than the limit.",
      assumptions=COMMON_ASSUME + ["unguarded PEGTL runs serve as reference for the guarded ones (the property is about the guard)"])
